@@ -27,8 +27,8 @@ func lexLE(t1, n1, t2, n2 uint64) bool { return t1 < t2 || (t1 == t2 && n1 <= n2
 // Harness_C18_OperationOrder: published and unpublished operation lists in the metadata are in
 // anchoring order (time, then number), published ones de-duplicated by canonical reference.
 func Harness_C18_OperationOrder() {
-	np := verifrt.Choose("published", 2) + 2
-	nu := 1
+	np := verifrt.Choose("published", 3) + 1
+	nu := verifrt.Choose("unpublished", 3) + 1
 	pub := anyOps("p", np)
 	unpub := anyOps("u", nu)
 	rm := &protocol.ResolutionModel{Doc: make(document.Document), PublishedOperations: pub, UnpublishedOperations: unpub,
